@@ -111,3 +111,16 @@ for _p, _what in (('C02', 'oracle: ASan/UBSan silence, rule-loop counter hook <=
         technique='exhaustive bounded program enumeration (fonts as programs) x all short inputs on the real code, invariant oracle on every final state',
         assumptions=['loop bound uses the insert budget remaining at pass start (hook GRAPHITE2_VERIF)'],
     )
+
+CHECKS['C19'] = dict(
+    level='model_checking',
+    steps=[dict(mode='asan', bin='c19_justify')],
+    rule='fonts {Padauk, Scheherazade, charis, Awami_test, Annapurna, S-full (justification levels), S-full RTL} x 3 (thorough 6) corpus texts of 5-9 (thorough 5-12) characters x dir flags 0..7 x {font NULL, ppm 24}; '
+         'histories: EVERY subset of cluster-boundary break positions (up to 2^9 quick / 2^11 thorough) applied with gr_slot_linebreak_before, then for every line every (width in {-1,0,W/4,W,3W,1e6}) x flags 0..3 x (pFirst,pLast) in {NULL, whole line, inner, last-only}, '
+         'all calls applied one after another on the same segment; after EVERY call every line must still be the same slots in the same order with prev the inverse of next, finite origins and return value, unchanged gids when the font has no justification data; gr_seg_destroy + allocation balance at the end',
+    state_meaning='states = break histories (one segment per subset of break positions); transitions = gr_seg_justify calls, each followed by the full integrity check of all lines',
+    level_text='Explicit enumeration of all break-position subsets and all justify parameter choices as one growing API history per segment, on the real code, with the stream-integrity invariant evaluated after every call.',
+    level_note='Trusted: the integrity oracle; ASan/UBSan. Break positions are restricted to cluster boundaries (no attachment crossing the break), texts to <= 9 characters.',
+    technique='exhaustive enumeration of API histories (break subsets x justify parameter product) on the real code, invariant after every step',
+    assumptions=['breaks are placed at cluster boundaries only'],
+)
